@@ -80,12 +80,16 @@ def model_line(scn, fault=None):
 
 
 def materialise(scn, root):
+    """paths of the tree are byte strings (kept as latin-1 text in the scenario): the bytes go to the file system as they are"""
     work = os.path.join(root, "work"); tmp = os.path.join(root, "tmp")
     os.makedirs(work); os.makedirs(tmp)
+    bwork = os.fsencode(work)
+    def bp(p):
+        return os.path.join(bwork, p.encode("latin-1"))
     # directories first (parents), files, then modes (deepest first so that read-only dirs do not block creation)
     items = sorted(scn["tree"].items(), key=lambda kv: kv[0].count("/"))
     for p, (kind, mode, data) in items:
-        fp = os.path.join(work, p)
+        fp = bp(p)
         os.makedirs(os.path.dirname(fp), exist_ok=True)
         if kind == "D":
             os.makedirs(fp, exist_ok=True)
@@ -93,30 +97,31 @@ def materialise(scn, root):
             with open(fp, "wb") as f:
                 f.write(data)
         elif kind == "S":
-            os.symlink(data.decode("latin-1"), fp)
+            os.symlink(data, fp)
         else:
             os.mkfifo(fp)
     # ownership first: chown(2) clears the set-uid / set-gid bits of a regular file
-    for d, ds, fs_ in os.walk(root):
+    for d, ds, fs_ in os.walk(os.fsencode(root)):
         for n in ds + fs_:
             os.lchown(os.path.join(d, n), NOBODY, NOBODY)
     os.chown(root, NOBODY, NOBODY)
     for p, (kind, mode, data) in sorted(scn["tree"].items(), key=lambda kv: -kv[0].count("/")):
         if kind != "S":
-            os.chmod(os.path.join(work, p), mode)
+            os.chmod(bp(p), mode)
     os.chmod(work, 0o755); os.chmod(tmp, 0o755)
     return work, tmp
 
 
 def snapshot(work, with_mtime=False):
     tree = {}
-    for d, ds, fs_ in os.walk(work):
+    bwork = os.fsencode(work)
+    for d, ds, fs_ in os.walk(bwork):
         for n in ds + fs_:
             fp = os.path.join(d, n)
-            rel = os.path.relpath(fp, work)
+            rel = os.path.relpath(fp, bwork).decode("latin-1")
             st = os.lstat(fp)
             if stat.S_ISLNK(st.st_mode):
-                e = ("S", 0, os.readlink(fp).encode("latin-1"))
+                e = ("S", 0, os.readlink(fp))
             elif stat.S_ISDIR(st.st_mode):
                 e = ("D", st.st_mode & 0o7777, b"")
             elif stat.S_ISREG(st.st_mode):
@@ -170,6 +175,7 @@ def run_impl(binary, scn, strace=None, inject=None, timeout=20, with_mtime=False
             if not as_root:
                 cmd = ["setpriv", "--reuid=%d" % NOBODY, "--regid=%d" % NOBODY, "--clear-groups"]
             cmd += [binary] + argv
+        cmd = [c.encode("latin-1") if isinstance(c, str) else c for c in cmd]      # arguments are byte strings too
         um = scn.get("umask", 0o022)
         limit_as = "asan" not in binary
         def pre():
